@@ -42,6 +42,9 @@ def datasets(tier):
         {'family': 'shoc_simple', 'ny': 2, 'nx': 2},
         {'family': 'shoc_standard', 'nj': 2, 'ni': 3, 'dry': 'farcorner'},
         {'family': 'ugrid', 'mesh': 'M4', 'supplied': ['edge_node'], 'ints': True},
+        # other dimensions of length one must survive a selection
+        {'family': 'cf1d', 'ny': 2, 'nx': 2, 'nt': 1, 'nk': 1},
+        {'family': 'ugrid', 'mesh': 'M1', 'nt': 1, 'nk': 2},
     ]
     if tier == 'thorough':
         specs += [
@@ -50,6 +53,8 @@ def datasets(tier):
             {'family': 'shoc_standard', 'nj': 3, 'ni': 4, 'geometry': 'skew', 'dry': 'corner'},
             {'family': 'ugrid', 'mesh': 'M7', 'start_index': 1},
             {'family': 'ugrid', 'mesh': 'M6', 'supplied': ['edge_node', 'face_edge'], 'fill': 'fillattr'},
+            {'family': 'shoc_standard', 'nj': 2, 'ni': 2, 'nt': 1, 'nk': 1},
+            {'family': 'cf2d', 'ny': 2, 'nx': 3, 'nt': 2, 'nk': 1, 'declare_reversed': True},
         ]
     return specs
 
